@@ -35,6 +35,8 @@ def run(ctx):
             vals.insert(rnd.randint(0, len(vals)), rnd.choice([1234567, 0.12345, -98765.4321, 1e21, 12345678901234567890, 'a long string with \u00e9 and "quotes"', True, False, None,
                                                              {'n': 314159, 'f': 2.71828, 's': 'xyzzy', 't': True, 'z': None}, [100, 200.5, -300]]))
         parts = [gen.jdump(v) for v in vals]
+        # jawk also accepts a line break written raw inside a string: it counts as a line break for the positions like any other
+        if rnd.random() < 0.15: parts.insert(rnd.randint(0, len(parts)), rnd.choice([b'"raw\nline"', b'{"k": "two\nraw\nbreaks", "a": 1}', b'["\r\n", 7]']))
         if noisy and parts: parts.insert(rnd.randint(0, len(parts)), b'} x')
         data = b''
         # a byte order mark or other bytes that are not JSON at the very start are noise like any other, on standard input and in a file alike
